@@ -182,7 +182,8 @@ Inductive cop :=
 | CStream (fl : flavour) (key : bytes) (o : wopts) (cs : list bytes) (now : N)
 | CWriteHash (fl : flavour) (a : algo) (data : bytes)
 | CRemove (key : bytes) (now : N)
-| CRemoveHash (a : algo) (d : bytes).
+| CRemoveHash (a : algo) (d : bytes)
+| CRemoveFully (key : bytes).
 
 Definition c_run (f : fs) (o : cop) : fs :=
   match o with
@@ -191,6 +192,7 @@ Definition c_run (f : fs) (o : cop) : fs :=
   | CWriteHash fl a d => snd (run (write_hash hash fl a d) f)
   | CRemove k now => snd (run (delete hash k now) f)
   | CRemoveHash a d => snd (run (remove_hash (sri_of hash a d)) f)
+  | CRemoveFully k => snd (run (remove_fully hash k) f)
   end.
 
 (* the specification: the map, what is stored now, everything that was ever named *)
@@ -205,6 +207,10 @@ Definition c_step (s : cspec) (o : cop) : cspec :=
   | CWriteHash _ a d => mkC (c_map s) ((a, d) :: c_stored s) ((a, d) :: c_all s)
   | CRemove key _ => mkC (fun k => if bytes_eqb k key then None else c_map s k) (c_stored s) (c_all s)
   | CRemoveHash a d => mkC (c_map s) (del (a, d) (c_stored s)) ((a, d) :: c_all s)
+  | CRemoveFully key =>
+      (* the bucket file is unlinked: every key that shares it is gone with it; the key's content is deleted *)
+      mkC (fun k => if list_eqb bytes_eqb (bucket_path hash k) (bucket_path hash key) then None else c_map s k)
+          (match c_map s key with Some ad => del ad (c_stored s) | None => c_stored s end) (c_all s)
   end.
 
 Definition c_ok (o : cop) : bool :=
@@ -216,6 +222,7 @@ Definition c_ok (o : cop) : bool :=
   | CWriteHash _ _ _ => true
   | CRemove key now => opts_ok key wopts0 now
   | CRemoveHash _ _ => true
+  | CRemoveFully _ => true
   end.
 
 (* what a read of key k must answer *)
@@ -353,10 +360,83 @@ Proof.
   unfold rbind, read_file. cbn [bind run]. unfold exec, resolve. rewrite H. reflexivity.
 Qed.
 
+Lemma path_eqb_eq (p q : path) : list_eqb bytes_eqb p q = true <-> p = q.
+Proof.
+  revert q. induction p as [|x p IH]; intros [|y q]; cbn [list_eqb]; try (split; [discriminate|discriminate]); [split; reflexivity|].
+  rewrite andb_true_iff, bytes_eqb_eq, IH. split; [intros [-> ->]; reflexivity|intros E; inversion E; auto].
+Qed.
+
+(* the run of a full removal in closed form *)
+Lemma remove_fully_run f key :
+  IndexInv f ->
+  run (remove_fully hash key) f =
+  match abs_idx hash f key with
+  | Some m =>
+      match content_path (m_sri m) with
+      | Some cp =>
+          match lookup f (InCache cp) with
+          | Some Dir => (Err EIoErr, f)
+          | Some _ => run (step_ok (Unlink (InCache (bucket_path hash key)))) (remove f (InCache cp))
+          | None => run (step_ok (Unlink (InCache (bucket_path hash key)))) f
+          end
+      | None => (Panic, f)
+      end
+  | None => run (step_ok (Unlink (InCache (bucket_path hash key)))) f
+  end.
+Proof.
+  intros Hi. unfold remove_fully. unfold rbind at 1. rewrite run_bind, (find_run hash f key Hi). cbn [fst snd].
+  destruct (abs_idx hash f key) as [m|]; unfold rbind; rewrite run_bind.
+  - unfold with_cpath. destruct (content_path (m_sri m)) as [cp|]; [|reflexivity].
+    rewrite run_unlink_if_present. destruct (lookup f (InCache cp)) as [[x| |t]|]; reflexivity.
+  - reflexivity.
+Qed.
+
+(* what a full removal does, from any well-shaped cache *)
+Lemma remove_fully_effect f key :
+  CacheInv f ->
+  (forall m, abs_idx hash f key = Some m -> exists a d, m_sri m = sri_of hash a d) ->
+  let f' := snd (run (remove_fully hash key) f) in
+  lookup f' (InCache (bucket_path hash key)) = None /\
+  (forall m a d, abs_idx hash f key = Some m -> m_sri m = sri_of hash a d -> lookup f' (InCache (cpath hash a d)) = None) /\
+  (forall l, l <> InCache (bucket_path hash key) ->
+     (forall m a d, abs_idx hash f key = Some m -> m_sri m = sri_of hash a d -> l <> InCache (cpath hash a d)) ->
+     lookup f' l = lookup f l).
+Proof.
+  intros [Hi [Hcs Hts]] Hsri f'. destruct (bucket_path_shape hash key) as [ba [bb [bc Eb]]].
+  (* unlinking the bucket from a state [g] that agrees with [f] on it *)
+  assert (forall g, lookup g (InCache (bucket_path hash key)) = lookup f (InCache (bucket_path hash key)) ->
+            lookup (snd (run (step_ok (Unlink (InCache (bucket_path hash key)))) g)) (InCache (bucket_path hash key)) = None /\
+            (forall l, l <> InCache (bucket_path hash key) -> lookup (snd (run (step_ok (Unlink (InCache (bucket_path hash key)))) g)) l = lookup g l)) as Hun.
+  { intros g Eg. split; [|intros l Hl; apply run_unlink_frame; exact Hl]. rewrite run_unlink, Eg.
+    destruct (lookup f (InCache (bucket_path hash key))) as [nd|] eqn:El; [|cbn [snd]; exact Eg].
+    rewrite Eb in El. destruct (Hi [ba; bb; bc] nd El) as [_ H]. destruct (H eq_refl) as [d [-> _]]. cbn [snd]. apply lookup_remove_eq. }
+  subst f'. rewrite (remove_fully_run f key Hi).
+  destruct (abs_idx hash f key) as [m|] eqn:Ea.
+  - destruct (Hsri m eq_refl) as [a [d Es]]. rewrite Es, (content_path_computed hash a d HL).
+    assert (InCache (cpath hash a d) <> InCache (bucket_path hash key)) as Hne.
+    { rewrite Eb. unfold cpath. intros X. inversion X as [[H1 H2]]; try (vm_compute in H1; discriminate). }
+    assert (forall a0 d0, sri_of hash a d = sri_of hash a0 d0 -> cpath hash a0 d0 = cpath hash a d) as Hcp.
+    { intros a0 d0 E. pose proof (content_path_computed hash a0 d0 HL) as P1. rewrite <- E, (content_path_computed hash a d HL) in P1. congruence. }
+    destruct (lookup f (InCache (cpath hash a d))) as [[x| |t]|] eqn:Ec.
+    + destruct (Hun (remove f (InCache (cpath hash a d)))) as [U1 U2]; [apply lookup_remove_neq; exact Hne|].
+      split; [exact U1|]. split.
+      * intros m0 a0 d0 E0 Es0. inversion E0; subst m0. rewrite Es in Es0. rewrite (Hcp a0 d0 Es0). rewrite U2 by congruence. apply lookup_remove_eq.
+      * intros l Hl Hc. rewrite U2 by exact Hl. apply lookup_remove_neq. intros X. exact (Hc m a d eq_refl Es (eq_sym X)).
+    + exfalso. unfold cpath in Ec. apply (proj2 (Hcs _ _ Ec)); reflexivity.
+    + destruct (Hun (remove f (InCache (cpath hash a d)))) as [U1 U2]; [apply lookup_remove_neq; exact Hne|].
+      split; [exact U1|]. split.
+      * intros m0 a0 d0 E0 Es0. inversion E0; subst m0. rewrite Es in Es0. rewrite (Hcp a0 d0 Es0). rewrite U2 by congruence. apply lookup_remove_eq.
+      * intros l Hl Hc. rewrite U2 by exact Hl. apply lookup_remove_neq. intros X. exact (Hc m a d eq_refl Es (eq_sym X)).
+    + destruct (Hun f eq_refl) as [U1 U2]. split; [exact U1|]. split.
+      * intros m0 a0 d0 E0 Es0. inversion E0; subst m0. rewrite Es in Es0. rewrite (Hcp a0 d0 Es0). rewrite U2 by congruence. exact Ec.
+      * intros l Hl _. apply U2. exact Hl.
+  - destruct (Hun f eq_refl) as [U1 U2]. split; [exact U1|]. split; [intros m a d X; discriminate X|]. intros l Hl _. apply U2. exact Hl.
+Qed.
+
 Lemma cinv_step f s o :
   CInv f s -> c_ok o = true -> NoColl hash (c_all (c_step s o)) -> CInv (c_run f o) (c_step s o).
 Proof.
-  intros [Hinv [Hm Hst]] Hok Hnc. unfold CInv. destruct o as [fl a key data now|fl key o cs now|fl a data|key now|a d]; cbn [c_run c_step c_ok c_map c_stored c_all] in *.
+  intros [Hinv [Hm Hst]] Hok Hnc. unfold CInv. destruct o as [fl a key data now|fl key o cs now|fl a data|key now|a d|key]; cbn [c_run c_step c_ok c_map c_stored c_all] in *.
   - (* write *)
     pose proof (opts_ok_wf_rec hash key _ now Hok) as Hwf.
     destruct (write_roundtrip hash HL f fl a key data now Hinv Hwf) as [_ [Hinv' [_ [_ [Hfr [e [He [_ [Hsri _]]]]]]]]].
@@ -435,6 +515,46 @@ Proof.
         rewrite Hfr'; [exact (Hst a0 d0 Hin)|].
         intros X. assert (cpath hash a d = cpath hash a0 d0) as X' by congruence.
         exact (Hne (nocoll_pair _ a d a0 d0 Hnc (or_introl eq_refl) (or_intror Hin) X')).
+  - (* full removal: the bucket file and the entry's content are unlinked *)
+    assert (forall m, abs_idx hash f key = Some m -> exists a d, m_sri m = sri_of hash a d) as Hsri.
+    { intros m Hk. specialize (Hm key). destruct (c_map s key) as [[a d]|]; [|congruence].
+      destruct Hm as [_ [e [He Hs]]]. exists a, d. congruence. }
+    destruct (remove_fully_effect f key Hinv Hsri) as [Hb [Hcgone Hfr]].
+    set (f' := snd (run (remove_fully hash key) f)) in *.
+    assert (forall l, lookup f' l = lookup f l \/ lookup f' l = None) as Hshrink.
+    { intros l. destruct (loc_eq_dec l (InCache (bucket_path hash key))) as [->|N]; [right; exact Hb|].
+      destruct (abs_idx hash f key) as [m|] eqn:Ea.
+      - destruct (Hsri m eq_refl) as [a [d Es]]. destruct (loc_eq_dec l (InCache (cpath hash a d))) as [->|N2]; [right; exact (Hcgone m a d eq_refl Es)|].
+        left. apply Hfr; [exact N|]. intros m0 a0 d0 E0 Es0. inversion E0; subst m0.
+        assert (cpath hash a0 d0 = cpath hash a d) as -> by (pose proof (content_path_computed hash a0 d0 HL) as P1; rewrite <- Es0, Es, (content_path_computed hash a d HL) in P1; congruence).
+        exact N2.
+      - left. apply Hfr; [exact N|]. intros m a d X. discriminate X. }
+    split; [|split].
+    + destruct Hinv as [Hi [Hcs Hts]]. split; [|split].
+      * intros p n Hl. destruct (Hshrink (InCache (index_dir :: p))) as [E|E]; rewrite E in Hl; [exact (Hi p n Hl)|discriminate].
+      * intros p n Hl. destruct (Hshrink (InCache (content_dir :: p))) as [E|E]; rewrite E in Hl; [exact (Hcs p n Hl)|discriminate].
+      * unfold TmpShape, dir_or_absent in *. destruct (Hshrink (InCache tmp_dir)) as [E|E]; rewrite E; [exact Hts|left; reflexivity].
+    + intros k. destruct (list_eqb bytes_eqb (bucket_path hash k) (bucket_path hash key)) eqn:Eq.
+      * apply path_eqb_eq in Eq. unfold abs_idx, bucket_bytes. rewrite Eq, Hb. vm_compute. reflexivity.
+      * assert (bucket_path hash k <> bucket_path hash key) as Nb by (intros X; rewrite X, (proj2 (path_eqb_eq _ _) eq_refl) in Eq; discriminate).
+        assert (abs_idx hash f' k = abs_idx hash f k) as ->.
+        { unfold abs_idx, bucket_bytes. rewrite Hfr; [reflexivity|congruence|].
+          intros m a d _ _ X. destruct (bucket_path_shape hash k) as [x [y [z E]]]. rewrite E in X. unfold cpath in X. inversion X as [[H1 H2]]; try (vm_compute in H1; discriminate). }
+        exact (Hm k).
+    + intros a0 d0 Hin. pose proof (Hst a0 d0 Hin) as Hold. pose proof (Hm key) as Hmk.
+      assert (InCache (cpath hash a0 d0) <> InCache (bucket_path hash key)) as Nb.
+      { destruct (bucket_path_shape hash key) as [x [y [z E]]]. rewrite E. unfold cpath. intros X. inversion X as [[H1 H2]]; try (vm_compute in H1; discriminate). }
+      destruct (c_map s key) as [[a d]|].
+      * destruct Hmk as [Hin1 [e [He Hs]]].
+        destruct (ad_eqb (a, d) (a0, d0)) eqn:E.
+        -- apply ad_eqb_eq in E. inversion E; subst a0 d0. rewrite memb_del_same. exact (Hcgone e a d He Hs).
+        -- assert ((a, d) <> (a0, d0)) as Hne by (intros X; rewrite X, (proj2 (ad_eqb_eq _ _) eq_refl) in E; discriminate).
+           rewrite (memb_del_other _ _ _ Hne). rewrite Hfr; [exact Hold|exact Nb|].
+           intros m a1 d1 E1 Es1 X. rewrite He in E1. inversion E1; subst m.
+           assert (cpath hash a1 d1 = cpath hash a d) as Ecp by (pose proof (content_path_computed hash a1 d1 HL) as P1; rewrite <- Es1, Hs, (content_path_computed hash a d HL) in P1; congruence).
+           assert (cpath hash a d = cpath hash a0 d0) as X' by congruence.
+           exact (Hne (nocoll_pair _ a d a0 d0 Hnc Hin1 Hin X')).
+      * rewrite Hfr; [exact Hold|exact Nb|]. intros m a d Ea. congruence.
 Qed.
 
 
@@ -477,6 +597,33 @@ Proof.
   intros k. unfold c_read. specialize (Hm k). destruct (c_map s k) as [[a d]|].
   - destruct Hm as [Hin [e [He Hs]]]. rewrite (read_by_key hash f k e (proj1 Hinv) He), Hs. exact (Haddr a d Hin).
   - unfold read, by_key, rbind. rewrite run_bind, (find_run hash f k (proj1 Hinv)), Hm. reflexivity.
+Qed.
+
+(* a checked copy of stored data out of the cache succeeds and leaves exactly the bytes at the destination *)
+Lemma copy_stored f a d e :
+  lookup f (InCache (cpath hash a d)) = Some (File d) -> lookup f (Ext e) <> Some Dir ->
+  run (extract_hash hash XCopy true (sri_of hash a d) (Ext e)) f = (Ok (lenN d), update f (Ext e) (File d)).
+Proof.
+  intros H Hd. unfold extract_hash, with_cpath. rewrite (content_path_computed hash a d HL).
+  unfold rbind. rewrite run_bind. unfold verify, rbind. rewrite run_bind. unfold read_file. cbn [run].
+  rewrite (exec_readfile_file _ _ _ H). cbn [run fst snd]. unfold check_res. rewrite sri_check_self. cbn [run fst snd].
+  rewrite run_bind. unfold xstep. cbn [run]. unfold exec, resolve. rewrite H. cbn [parent_ok].
+  destruct (lookup f (Ext e)) as [[x| |t]|]; try reflexivity. exfalso. apply Hd. reflexivity.
+Qed.
+
+Theorem cinv_copy f s k e :
+  CInv f s -> lookup f (Ext e) <> Some Dir ->
+  match c_map s k with
+  | Some (a, d) => memb (a, d) (c_stored s) = true ->
+                   run (extract hash XCopy true k (Ext e)) f = (Ok (lenN d), update f (Ext e) (File d))
+  | None => run (extract hash XCopy true k (Ext e)) f = (Err ENotFound, f)
+  end.
+Proof.
+  intros [Hinv [Hm Hst]] Hd. specialize (Hm k). destruct (c_map s k) as [[a d]|].
+  - intros Hmem. destruct Hm as [Hin [m [He Hs]]]. pose proof (Hst a d Hin) as Hl. rewrite Hmem in Hl.
+    unfold extract, by_key, rbind. rewrite run_bind, (find_run hash f k (proj1 Hinv)), He. cbn [fst snd]. rewrite Hs.
+    apply copy_stored; assumption.
+  - unfold extract, by_key, rbind. rewrite run_bind, (find_run hash f k (proj1 Hinv)), Hm. reflexivity.
 Qed.
 
 Definition cspec0 : cspec := mkC (fun _ => None) [] [].
